@@ -353,6 +353,15 @@ def q2d_sides(module, fn, loop):
     for sname, coef, NN, row in (('Sa', ca, found[0], 0), ('Sprimea', ca, found[0], 1), ('Sb', cb, found[1], 0), ('Sprimeb', cb, found[1], 1)):
         ge0 = canon_cond(ast.parse(f'{NN} >= 0', mode='eval').body, True)[0]
         c2 = canon_cond(ast.parse(f'{MM} == 1 and {NN} > 2', mode='eval').body, True)[0]
+        # the guard of the m = 1 correction as written: `m == 1 and N > K` / `N >= K + 1` for a literal K; K != 2 is recognised and
+        # WRONG (the constant -2/5 enters the auxiliary polynomials at P_3, i.e. for every list longer than three)
+        threshold = None
+        for q in live:
+            for text, _pol in q.conds:
+                mt = re.fullmatch(re.escape(f'{MM} == 1 and {NN} ') + r'(>|>=) (\d+)', text)
+                if mt:
+                    threshold = int(mt.group(2)) - (1 if mt.group(1) == '>=' else 0)
+                    c2 = text
         vals = {(False, None): set(), (True, False): set(), (True, True): set()}
         nodes = {}
         decided = True
@@ -368,7 +377,7 @@ def q2d_sides(module, fn, loop):
                 continue
             vals[key].add(unp(v))
             nodes[key] = v
-        rec = {'ok': False}
+        rec = {'ok': False, 'threshold': threshold}
         out['sides'][sname] = rec
         if not decided or any(len(v) != 1 for v in vals.values()):
             continue
@@ -823,7 +832,9 @@ def generate(repo):
         skip_both = sd['skip_both']
         ba, ca = sides['Sa']['base'], sides['Sa']['corr']
         same = len({r['base'] for r in sides.values()}) == 1 and len({r['corr'] for r in sides.values()}) == 1
-        guards = True          # q2d_sides only accepts values that differ exactly on `m == 1 and N > 2`
+        # q2d_sides only accepts values that differ exactly on `m == 1 and N > K`; K must be 2 on every side
+        guards = all(r.get('threshold') == 2 for r in sides.values())
+        guards_wrong = any(r.get('threshold') not in (None, 2) for r in sides.values())
         own = all(r['zero_when_empty'] and r['coef_ok'] for r in sides.values())
         kern = N(find_assign(fn, 'kernel'), {'cost': 'c', 'sint': 's', 'Sa': 'Sa', 'Sb': 'Sb'})
         tot = N(find_assign(fn, 'total_sum'), {'um': 'um', 'kernel': 'k'})
@@ -843,7 +854,7 @@ def generate(repo):
             f'def q2dKernel (c s Sa Sb : K) : K := {kern}',
             f'def q2dTerm (um k : K) : K := {tot}',
             f'def q2dReadsAreUniform : Bool := {tri(same)}',
-            f'def q2dCorrectionOnlyForMOneAndNGreaterTwo : Bool := {tri(guards)}',
+            f'def q2dCorrectionOnlyForMOneAndNGreaterTwo : Bool := {tri(guards, wrong=guards_wrong)}',
             f'def q2dEachSideEvaluatedIffItsListNonEmpty : Bool := {tri(own)}',
             f'def q2dSkipsOnlyWhenBothEmpty : Bool := {tri(skip_both)}',
             f'def q2dPairsEveryOrderOfEitherList : Bool := {tri(pairs_all)}',
@@ -948,6 +959,10 @@ def generate(repo):
     def lstsq_fact():
         # the returned expression with every local expanded: local names, temporaries and the unpacking style do not matter
         fn = get_def(ini, 'lstsq')
+        # a solve of the (k, k) normal equations squares the condition number: recognised and wrong
+        for bad in ('np.linalg.solve', 'np.linalg.inv', 'np.linalg.cholesky', 'linalg.solve', 'linalg.cho_solve', 'linalg.cho_factor'):
+            if find_calls(fn, bad):
+                return False
         paths = SymEx(ini).run(fn)
         if len(paths) != 1 or paths[0].kind != 'return' or paths[0].events:
             return None
